@@ -84,4 +84,81 @@ theorem endApplyTag_rt (w : List Char → Nat) (rest : List Char) :
   simp at h1 h2
   simp [endApplyTag, printEntry, take, withTaken, literal_append, h1, h2, h3]
 
+/-! ## tags, metadata values, apply tag -/
+
+theorem tagKey_rt {k X : List Char} (hk : wfTag k = true)
+    (hX : ∀ c r, X = c :: r → (isAsciiWhitespace c || c == ':') = true) : tagKey (k ++ X) = .ok k X := by
+  simp [wfTag, List.all_eq_true, isTagChar] at hk
+  apply takeTill1_append
+  · intro h; simp [h] at hk
+  · intro c hc; have := hk.2 c hc; simp [this]
+  · exact hX
+
+theorem trim_blank_cons {t : List Char} (h1 : startTrimmed t = true) (h2 : endTrimmed t = true) :
+    trim (' ' :: t) = t := by
+  have : trimStart (' ' :: t) = trimStart t := by simp [trimStart, List.dropWhile, isRustWhitespace]
+  simp [trim, this, trimStart_eq h1, trimEnd_eq h2]
+
+theorem metadataValue_rt (v : MetaValue) (h : wfMetaValue v = true) (r : List Char) :
+    metadataValue (printMetaValue v ++ '\n' :: r) = .ok v ('\n' :: r) := by
+  cases v with
+  | text t =>
+    simp [wfMetaValue, wfMetaText] at h
+    obtain ⟨⟨h1, h2⟩, h3⟩ := h
+    have hl : tillLineEnding (' ' :: t.toList ++ '\n' :: r) = .ok (' ' :: t.toList) ('\n' :: r) :=
+      tillLineEnding_nl (a := ' ' :: t.toList) (by
+        intro c hc
+        rcases List.mem_cons.mp hc with rfl | hc
+        · simp [isEol]
+        · exact noEol_mem h1 c hc) r
+    simp at hl
+    simp [metadataValue, printMetaValue, alt2, literal, hl, trim_blank_cons h2 h3]
+  | expr t =>
+    simp [wfMetaValue, wfMetaText] at h
+    obtain ⟨⟨h1, h2⟩, h3⟩ := h
+    have hl : tillLineEnding (' ' :: t.toList ++ '\n' :: r) = .ok (' ' :: t.toList) ('\n' :: r) :=
+      tillLineEnding_nl (a := ' ' :: t.toList) (by
+        intro c hc
+        rcases List.mem_cons.mp hc with rfl | hc
+        · simp [isEol]
+        · exact noEol_mem h1 c hc) r
+    simp at hl
+    have hlit := literal_append [':', ':'] (' ' :: (t.toList ++ '\n' :: r))
+    simp at hlit
+    simp [metadataValue, printMetaValue, alt2, hlit, hl, trim_blank_cons h2 h3]
+
+theorem metadataValue_nl (r : List Char) : metadataValue ('\n' :: r) = .bt ('\n' :: r) := by
+  simp [metadataValue, alt2, literal, char_cons_ne]
+
+theorem applyTag_rt (w : List Char → Nat) (k : String) (v : Option MetaValue) (hk : wfTag k.toList = true)
+    (hv : ∀ x, v = some x → wfMetaValue x = true) (rest : List Char) :
+    applyTag (printEntry w (.applyTag k v) ++ rest) = .ok (.applyTag k v) rest := by
+  have hk' := hk
+  simp [wfTag, List.all_eq_true, isTagChar] at hk'
+  have hkstop : ∀ X, Stop isSpace (k.toList ++ X) := by
+    intro X
+    cases hkl : k.toList with
+    | nil => simp [hkl] at hk'
+    | cons c t =>
+      have := hk'.2 c (by simp [hkl])
+      simp [isAsciiWhitespace] at this
+      simp [isSpace, this]
+  have hs2 := fun X => space1_append (a := [' ']) (by simp) (by simp [isSpace]) (hkstop X)
+  have hs1 := fun X => space1_append (a := [' ']) (rest := kwTag ++ X) (by simp) (by simp [isSpace]) (by simp [kwTag, isSpace])
+  simp at hs1 hs2
+  cases v with
+  | none =>
+    have htk := tagKey_rt (X := '\n' :: rest) hk (by intro c r e; cases e; simp [isAsciiWhitespace])
+    have h3 : space0 ('\n' :: rest) = .ok [] ('\n' :: rest) := space0_stop (by simp [isSpace])
+    simp [applyTag, printEntry, literal_append, hs1, hs2, htk, h3, opt, metadataValue_nl]
+  | some x =>
+    have hx := hv x rfl
+    have hX : ∀ c r, printMetaValue x ++ '\n' :: rest = c :: r → (isAsciiWhitespace c || c == ':') = true := by
+      intro c r e
+      cases x <;> simp [printMetaValue] at e <;> simp [← e.1]
+    have htk := tagKey_rt (X := printMetaValue x ++ '\n' :: rest) hk hX
+    have h3 : space0 (printMetaValue x ++ '\n' :: rest) = .ok [] (printMetaValue x ++ '\n' :: rest) :=
+      space0_stop (by cases x <;> simp [printMetaValue, isSpace])
+    simp [applyTag, printEntry, literal_append, hs1, hs2, htk, h3, opt, metadataValue_rt x hx]
+
 end Okane.Unparse
